@@ -2,7 +2,8 @@
 Require Import ZArith List Bool.
 Require Import AV.BigInt.Model AV.BigInt.Facts AV.BigInt.FactsCmp AV.BigInt.FactsAdd AV.BigInt.FactsMul
                AV.BigInt.FactsBits AV.BigInt.FactsDivS AV.BigInt.FactsStr AV.BigInt.FactsScan
-               AV.BigInt.FactsShift AV.BigInt.FactsPow AV.BigInt.FactsConv AV.BigInt.FactsDiv5 AV.BigInt.FactsGcd AV.BigInt.FactsMod AV.BigInt.FactsPowMod AV.BigInt.FactsRadix.
+               AV.BigInt.FactsShift AV.BigInt.FactsPow AV.BigInt.FactsConv AV.BigInt.FactsDiv5 AV.BigInt.FactsGcd AV.BigInt.FactsMod AV.BigInt.FactsPowMod AV.BigInt.FactsRadix
+               AV.BigInt.FactsShiftRem AV.BigInt.FactsRepr AV.BigInt.FactsAll AV.Gen.BigIntRadix AV.BigInt.FactsRadixGen.
 Local Open Scope Z_scope.
 
 Theorem plus_exact : forall a b, norm a -> norm b ->
@@ -144,3 +145,69 @@ Theorem frplacev_exact : forall neg data, dok data ->
   val (bintFrPlacev neg data) = (if neg then - lval data else lval data) /\ norm (bintFrPlacev neg data).
 Proof. exact FactsConv.frplacev_exact. Qed.
 Print Assumptions frplacev_exact.
+
+(* bintShiftRem / fiBIntShiftRem ("lowest n bits") on the inputs on which the C is defined (int mask: n <= 30 for an
+   immediate; 1 <= n, top bit count <= 30, no more places than b has, for an allocated number); normal form when the
+   result has at most two places or a non-zero top place.  Outside: FactsExamples.shiftrem_*_refuted. *)
+Theorem shiftrem_exact : forall b n, norm b -> 0 <= val b -> shiftrem_defined b n = true ->
+  val (bintShiftRem b n) = val b mod 2 ^ n /\ (shiftrem_normal b n = true -> norm (bintShiftRem b n)).
+Proof. exact FactsShiftRem.shiftrem_exact. Qed.
+Print Assumptions shiftrem_exact.
+
+(* the representation: one normal form per integer; xintImmedIfCan immediate exactly on |v| <= 2^62-1 *)
+Theorem norm_unique : forall a b, norm a -> norm b -> val a = val b -> a = b.
+Proof. exact FactsRepr.norm_unique. Qed.
+Print Assumptions norm_unique.
+
+Theorem immed_if_can_repr : forall neg ds, res_ok ds ->
+  let r := xintImmedIfCan (Sto neg ds) in
+  val r = val (Sto neg ds) /\ norm r /\ (bintIsSmall r = true <-> lval ds <= IMM_MAX).
+Proof. exact FactsRepr.immed_if_can_repr. Qed.
+Print Assumptions immed_if_can_repr.
+
+Theorem every_result_normal : forall a b c n k,
+  norm a -> norm b -> norm c -> - H63 <= k < H63 ->
+  norm (bintPlus a b) /\ norm (bintMinus a b) /\ norm (bintTimes a b) /\ norm (fiBIntTimesPlus a b c) /\
+  norm (bintNegate a) /\ norm (bintAbs a) /\ norm (bintShift a n) /\ norm (bintNew k) /\
+  (val b <> 0 -> norm (fst (bintDivide a b)) /\ norm (snd (bintDivide a b)) /\
+                 exists r, bintMod a b = Some r /\ norm r) /\
+  (exists g, fiBIntGcd a b = Some g /\ norm g) /\
+  (0 <= k -> exists p, fiBIntSIPower a k = Some p /\ norm p) /\
+  (0 <= val b -> exists p, fiBIntBIPower a b = Some p /\ norm p) /\
+  (0 <= val b -> val c <> 0 -> exists p, fiBIntPowerMod a b c = Some p /\ norm p).
+Proof. exact FactsAll.every_result_normal. Qed.
+Print Assumptions every_result_normal.
+
+(* 16-bit places (fiBIntFrPlacev builds the big literals of generated code), every count parity *)
+Theorem frplacevS_exact : forall neg data, u16ok data ->
+  val (bintFrPlacevS neg data) = (if neg then - lval16 data else lval16 data) /\ norm (bintFrPlacevS neg data).
+Proof. exact FactsRepr.frplacevS_exact. Qed.
+Print Assumptions frplacevS_exact.
+
+Theorem toplacevS_exact : forall b, norm b ->
+  lval16 (bintToPlacevS b) = Z.abs (val b) /\ u16ok (bintToPlacevS b).
+Proof. exact FactsRepr.toplacevS_exact. Qed.
+Print Assumptions toplacevS_exact.
+
+Theorem placevS_roundtrip : forall b, norm b -> bintFrPlacevS (bintIsNeg b) (bintToPlacevS b) = b.
+Proof. exact FactsRepr.placevS_roundtrip. Qed.
+Print Assumptions placevS_roundtrip.
+
+Theorem placevS_roundtrip_val : forall neg data, u16ok data ->
+  lval16 (bintToPlacevS (bintFrPlacevS neg data)) = lval16 data.
+Proof. exact FactsRepr.placevS_roundtrip_val. Qed.
+Print Assumptions placevS_roundtrip_val.
+
+(* chunk width and multiplier of the scanners, REGENERATED from the current bigint.c (coq/Gen/BigIntRadix.v):
+   for every radix 2..36 the multiplier is radix^dio, survives the (BIntS) cast (< 2^32) and is the model's *)
+Theorem radix_chunk_regen_ok :
+  radix_chunk_translated = true /\
+  map (fun row => fst (fst row)) radix_chunk_tbl = map Z.of_nat (seq 2 35) /\
+  forall radix rio dio, In (radix, rio, dio) radix_chunk_tbl ->
+    0 < rio < 2 ^ 32 /\ toS rio = rio /\ rio = radix ^ dio /\ 1 <= dio /\ model_chunk radix = (rio, dio).
+Proof. exact FactsRadixGen.radix_chunk_regen_ok. Qed.
+Print Assumptions radix_chunk_regen_ok.
+
+Theorem dec_chunk_regen_ok : dec_chunk = dec_rio /\ 0 < fst dec_chunk < 2 ^ 32 /\ fst dec_chunk = 10 ^ snd dec_chunk.
+Proof. exact FactsRadixGen.dec_chunk_regen_ok. Qed.
+Print Assumptions dec_chunk_regen_ok.
